@@ -33,6 +33,21 @@ def split_sentences_no_min_length(text: str) -> list[str]:
     return split_sentences_regex(text, min_length=0)
 
 
+def _dedent_keeping_blank_lines(text: str) -> str:
+    """
+    Like `textwrap.dedent()`, but a whitespace-only line keeps what it has beyond the common
+    margin instead of being emptied (such a line may be content of a code block).
+    """
+    source_lines = text.split("\n")
+    dedented_lines = dedent(text).split("\n")
+    margin = next(
+        (len(src) - len(dst) for src, dst in zip(source_lines, dedented_lines) if src.strip()), 0
+    )
+    return "\n".join(
+        dst if src.strip() else src[margin:] for src, dst in zip(source_lines, dedented_lines)
+    )
+
+
 def fill_markdown(
     markdown_text: str,
     dedent_input: bool = True,
@@ -87,7 +102,7 @@ def fill_markdown(
     if dedent_input:
         # Normalize CRLF first (as the parser does anyway): `dedent()` does not see a
         # CRLF-terminated blank line as blank and would then not dedent at all.
-        markdown_text = dedent(markdown_text.replace("\r\n", "\n")).strip()
+        markdown_text = _dedent_keeping_blank_lines(markdown_text.replace("\r\n", "\n")).strip()
 
     markdown_text = markdown_text.strip() + "\n"
 
